@@ -184,6 +184,12 @@ func (p *objectWalker) walkObjectTree(hash plumbing.Hash) error {
 				}
 				continue
 			}
+			// A gitlink names a commit of another repository (the
+			// submodule); it is never stored here, so there is
+			// nothing to walk and nothing to keep.
+			if obj.Entries[i].Mode == filemode.Submodule {
+				continue
+			}
 			// Normal walk for sub-trees (and symlinks etc).
 			err = p.walkObjectTree(obj.Entries[i].Hash)
 			if err != nil {
@@ -192,6 +198,9 @@ func (p *objectWalker) walkObjectTree(hash plumbing.Hash) error {
 		}
 	case *object.Tag:
 		return p.walkObjectTree(obj.Target)
+	case *object.Blob:
+		// A reference or an annotated tag may point directly at a blob
+		// (git allows it); it has no children.
 	default:
 		// Error out on unhandled object types.
 		return fmt.Errorf("unknown object %X %s %T", obj.ID(), obj.Type(), obj)
